@@ -114,7 +114,7 @@ def explore(ctx):
                                                       "collide": {a: "dup", b: "dup", c: "dup.1"}}[kind]}
         # the advance a 'CFF ' table carries is encoded relative to the Private dict's nominalWidthX / defaultWidthX: fonts
         # where zero is the most frequent advance (defaultWidthX = 0) and fonts that set the two values explicitly
-        wkind = ["half-integer", "plain", "mostly-zero-width", "explicit-default-0", "half-integer-odd", "explicit-both", "mostly-zero-width", "plain"][i % 8]
+        wkind = ["half-integer", "plain", "mostly-zero-width", "explicit-default-0", "half-integer-odd", "explicit-both", "explicit-fractional", "plain"][i % 8]
         if wkind.startswith("half-integer"):
             # advances ending in .5, with even and with odd integer parts (rounding ties: hmtx rounds them up, the charstring
             # operand width - nominalWidthX must land on the same integer)
@@ -126,6 +126,10 @@ def explore(ctx):
             desc["glyphs"][-1]["width"] = Fr(620)
         elif wkind == "explicit-default-0":
             desc["info"] = dict(desc.get("info", {}), postscriptDefaultWidthX=0, postscriptNominalWidthX=543)
+        elif wkind == "explicit-fractional":
+            # the two explicit values need not be integers in the source (612.5, 20.25): whatever the Private dict then holds,
+            # the advance a charstring carries is the integer advance of hmtx
+            desc["info"] = dict(desc.get("info", {}), postscriptDefaultWidthX=[20.25, 500.5][(i // 8) % 2], postscriptNominalWidthX=[612.5, 431.5][(i // 8) % 2])
         elif wkind == "explicit-both":
             desc["info"] = dict(desc.get("info", {}), postscriptDefaultWidthX=int(desc["glyphs"][0]["width"]), postscriptNominalWidthX=-20)
         ctx.klass("cff widths:" + wkind)
